@@ -363,7 +363,11 @@ pub fn run_edit(c: &mut Ctx, count: usize, quot_heavy: bool) {
                 }
                 12 => {
                     c.knob("edit:quotient");
-                    list(vec![sym(if c.rng.chance(3, 4) { "quotient" } else { "h_quotient" })])
+                    // the hypergraph-level quotient knows nothing of the interfaces of the open
+                    // hypergraph around it (they would be left pointing at the old numbering), so it
+                    // is exercised on diagrams without interface entries only
+                    let closed = f.sources.is_empty() && f.targets.is_empty();
+                    list(vec![sym(if !closed || c.rng.chance(3, 4) { "quotient" } else { "h_quotient" })])
                 }
                 13 => list(vec![sym("is_strict")]),
                 14 => list(vec![sym("coequalizer")]),
@@ -380,7 +384,7 @@ pub fn run_edit(c: &mut Ctx, count: usize, quot_heavy: bool) {
                 break;
             }
         }
-        c.emit("lax.edit", vec![start.enc(), list(ops)], move || ok(list(trace)));
+        c.emit(if quot_heavy { "lax.quot" } else { "lax.edit" }, vec![start.enc(), list(ops)], move || ok(list(trace)));
     }
 }
 
@@ -431,6 +435,32 @@ pub fn op_append(a: &RLf, bb: &RLf) -> Sx {
     let mut x = a.to_lf();
     let (s, t) = x.append(bb.to_lf());
     ok(list(vec![enc_lf(&x), list(vec![l(&ids(&s)), l(&ids(&t))])]))
+}
+/// C10: "the in-place tensor, append and coproduct produce exactly the same data as their pure
+/// counterparts", judged on the implementation alone (pairs of lax diagrams that must be equal)
+pub fn law_tensor_assign_eq(a: &RLf, bb: &RLf) -> Sx {
+    let (x, y) = (a.to_lf(), bb.to_lf());
+    let mut z = x.clone();
+    z.tensor_assign(y.clone());
+    ok(list(vec![enc_lf(&z), enc_lf(&x.tensor(&y))]))
+}
+pub fn law_append_eq(a: &RLf, bb: &RLf) -> Sx {
+    // `append` leaves the interfaces of the accumulator alone and returns the shifted interfaces of
+    // the appended diagram: together they are the interfaces of the tensor
+    let (x, y) = (a.to_lf(), bb.to_lf());
+    let mut z = x.clone();
+    let (s, t) = z.append(y.clone());
+    z.sources.extend(s);
+    z.targets.extend(t);
+    ok(list(vec![enc_lf(&z), enc_lf(&x.tensor(&y))]))
+}
+pub fn law_coproduct_assign_eq(a: &RLf, bb: &RLf) -> Sx {
+    let (x, y) = (a.to_lf().hypergraph, bb.to_lf().hypergraph);
+    let mut z = x.clone();
+    z.coproduct_assign(y.clone());
+    // (the pure hypergraph coproduct is crate-private: it is the hypergraph part of the pure tensor)
+    let pure_ = LF { sources: vec![], targets: vec![], hypergraph: x }.tensor(&LF { sources: vec![], targets: vec![], hypergraph: y });
+    ok(list(vec![enc_lh(&z), enc_lh(&pure_.hypergraph)]))
 }
 /// uses the hypergraph parts of `a` and `bb` only
 pub fn op_coproduct_assign(a: &RLf, bb: &RLf) -> Sx {
@@ -569,6 +599,12 @@ pub fn run_cat(c: &mut Ctx, count: usize) {
                 c.emit("lax.append", vec![f.enc(), g.enc()], move || op_append(&a, &bb));
                 let (a, bb) = (f.clone(), g.clone());
                 c.emit("lax.coproduct_assign", vec![enc_lh(&f.to_lf().hypergraph), enc_lh(&g.to_lf().hypergraph)], move || op_coproduct_assign(&a, &bb));
+                let (a, bb) = (f.clone(), g.clone());
+                c.emit("law.tensor_assign_eq:lax-eq", vec![f.enc(), g.enc()], move || law_tensor_assign_eq(&a, &bb));
+                let (a, bb) = (f.clone(), g.clone());
+                c.emit("law.append_eq:lax-eq", vec![f.enc(), g.enc()], move || law_append_eq(&a, &bb));
+                let (a, bb) = (f.clone(), g.clone());
+                c.emit("law.coproduct_assign_eq:lax-eq", vec![f.enc(), g.enc()], move || law_coproduct_assign_eq(&a, &bb));
             }
             9 | 10 | 11 => {
                 let f = { let p_ = c.rng.chance(1, 2); gen_lf(c, p_, true) };
